@@ -193,8 +193,6 @@ def _layout_ok(sizes, c, cfg, allow_empty=False):
         return False
     if cfg.get('chdir') not in (None, 'decoy', 'empty') or (cfg.get('touch') and not cfg.get('chdir')):
         return False
-    if cfg.get('pstr') and cfg.get('direct'):
-        return False
     if cfg.get('mem') not in (None, 'F', 'strided') or (cfg.get('mem') and cfg['backend'] not in ('npy', 'array')):
         return False
     if cfg.get('mem') == 'strided' and cfg['backend'] != 'array':
